@@ -776,3 +776,72 @@ Proof.
   intros n d Hin. rewrite Forall_forall in N. destruct (N _ Hin) as [Hn Hd]. simpl in *.
   rewrite <- (A1 n Hn), <- X1. rewrite (E n d Hin v1 C1). apply sem_driver_ext. intros s Hs. apply A1, Hd. by apply elem_of_list_to_set.
 Qed.
+
+(* ------------------------------------------------------------------ from the boolean guard of the oracle (blackbox-free modules) *)
+Definition bbfree (m : vmodule) : Prop := ∀ mn insts, IInst mn insts ∈ m_items m → is_Some (prim_of_name mn).
+Lemma prim_of_name_gate mn t : prim_of_name mn = Some t → t ∈ gate_types.
+Proof. unfold prim_of_name, gate_types. repeat case_bool_decide; intros Hq; inversion Hq; set_solver. Qed.
+Lemma bind_fst {A} (f : A → list (string * driver)) (l : list A) : (l ≫= f).*1 = l ≫= (λ x, (f x).*1).
+Proof. induction l as [|x l IH]; [done|]. cbn. by rewrite fmap_app, IH. Qed.
+Lemma inst_drivers_defs bbs mn t ic : prim_of_name mn = Some t → (inst_drivers mn ic).*1 = inst_defs bbs mn ic.
+Proof.
+  intros E. unfold inst_drivers, inst_defs. rewrite E. destruct ic as [nm [[|o ins]|ps]]; simpl; try done. by destruct (as_id o).
+Qed.
+Lemma item_drivers_defs bbs it : (∀ mn insts, it = IInst mn insts → is_Some (prim_of_name mn)) → (item_drivers it).*1 = item_defs bbs it.
+Proof.
+  intros Hb. destruct it as [ns|ns|ns|mn insts|l]; simpl; try done.
+  - destruct (Hb mn insts eq_refl) as [t Et]. rewrite bind_fst. clear Hb. induction insts as [|ic insts IH]; [done|]. cbn.
+    by rewrite IH, (inst_drivers_defs bbs mn t ic Et).
+  - clear Hb. induction l as [|a l IH]; [done|]. rewrite !fmap_cons. f_equal. exact IH.
+Qed.
+Lemma drivers_defs bbs m : bbfree m → (drivers m).*1 = module_defs bbs m.
+Proof.
+  intros Hb. unfold drivers, module_defs. rewrite bind_fst. unfold bbfree in Hb. revert Hb. generalize (m_items m). intros items Hb.
+  induction items as [|it items IH]; [done|]. cbn. rewrite IH by (intros; eapply Hb; by right). f_equal.
+  apply item_drivers_defs. intros mn insts ->. eapply Hb. by left.
+Qed.
+
+Lemma in_subset_den rsv bbs m : in_subset bbs m = true → bbfree m → (list_to_set (module_ids m) : gset string) ⊆ rsv →
+  Forall (item_den_ok (init_ctx rsv bbs).1 (list_to_set (drivers m).*1)) (m_items m) ∧ NoDup (drivers m).*1.
+Proof.
+  intros Hs Hb Hids. pose proof (drivers_defs bbs m Hb) as Edd.
+  unfold in_subset in Hs. rewrite !andb_true_iff in Hs. destruct Hs as ((((((Hsh & _) & Hnd) & Hdef) & _) & _) & _).
+  apply bool_decide_eq_true in Hnd. rewrite forallb_forall in Hsh. rewrite forallb_forall in Hdef.
+  split; [|by rewrite Edd].
+  assert (Hitem : ∀ it s, it ∈ m_items m → s ∈ item_ids it → s ∈ rsv).
+  { intros it s Hit Hs'. apply Hids. rewrite elem_of_list_to_set. unfold module_ids. right. apply elem_of_app. right.
+    apply elem_of_list_bind. eauto. }
+  apply Forall_forall. intros it Hit. pose proof (Hsh it (proj1 (elem_of_list_In _ _) Hit)) as Hs'.
+  destruct it as [ns|ns|ns|mn insts|l]; simpl; try done.
+  - intros n Hn. split; [by apply (Hitem (IInput ns) n Hit)|]. rewrite Edd. intros Hin. apply elem_of_list_to_set in Hin.
+    apply elem_of_list_In in Hin. specialize (Hdef _ Hin). apply bool_decide_eq_true in Hdef. apply Hdef.
+    unfold sset. rewrite elem_of_list_to_set. unfold decl_inputs. apply elem_of_list_bind. exists (IInput ns). done.
+  - destruct (Hb mn insts Hit) as [t Et]. exists t. split; [done|]. split; [by eapply prim_of_name_gate|].
+    apply andb_true_iff in Hs' as [Hs' _]. rewrite forallb_forall in Hs'. apply Forall_forall. intros ic Hic.
+    specialize (Hs' ic (proj1 (elem_of_list_In _ _) Hic)). unfold inst_ok in Hs'. rewrite Et in Hs'.
+    destruct ic as [iname [[|o ins]|ps]]; simpl in Hs'; try discriminate. apply andb_true_iff in Hs' as [Ho Har].
+    apply bool_decide_eq_true in Ho as [n En]. pose proof (as_id_cid _ _ En) as ->.
+    assert (Hsub : ∀ s, s ∈ (cid n :: ins) ≫= ids_cond → s ∈ rsv).
+    { intros s Hs''. apply (Hitem (IInst mn insts) s Hit). simpl. right. apply elem_of_list_bind. exists (iname, Positional (cid n :: ins)).
+      split; [|done]. simpl. by right. }
+    exists n, ins. split; [done|]. split; [|split].
+    + split; simpl.
+      * apply Hsub. cbn. by left.
+      * intros s Hs''. apply elem_of_list_to_set in Hs''. apply Hsub. cbn. by right.
+    + destruct (bool_decide (t = Buf) || bool_decide (t = Not)); [|by apply negb_true_iff, bool_decide_eq_false in Har].
+      apply bool_decide_eq_true in Har. intros ->. done.
+    + intros Hbn. destruct (bool_decide (t = Buf) || bool_decide (t = Not)) eqn:Eb; [by apply bool_decide_eq_true in Har|].
+      apply orb_false_iff in Eb as [E1 E2]. apply bool_decide_eq_false in E1, E2. by destruct Hbn.
+  - apply Forall_forall. intros [lv e] Hin. split; simpl.
+    + apply (Hitem (IAssign l) lv Hit). simpl. apply elem_of_list_bind. exists (lv, e). split; [by left|done].
+    + intros s Hs''. apply elem_of_list_to_set in Hs''. apply (Hitem (IAssign l) s Hit). simpl. apply elem_of_list_bind. exists (lv, e). split; [by right|done].
+Qed.
+
+(* every consistent valuation of the circuit read from a blackbox-free module of the subset satisfies the module:
+   each assignment and each primitive instance holds, with all 1'bx read as the value of the node tie_x *)
+Theorem read_denotes_sound rsv bbs m C : in_subset bbs m = true → bbfree m → (list_to_set (module_ids m) : gset string) ⊆ rsv →
+  read rsv bbs m = Ok C → ∀ w, consistent (c_g C) w → ∃ x, sat_module m w x.
+Proof.
+  intros Hs Hb Hids H w Hw. destruct (in_subset_den rsv bbs m Hs Hb Hids) as [Hok Hnd].
+  eexists. by eapply read_sound_items.
+Qed.
